@@ -933,6 +933,9 @@ func verif_freshslice[T any](s []T) bool { return true }
 // verif_arrayof(s): the backing array of s, as an object that a modifies clause can list.
 func verif_arrayof[T any](s []T) any { return nil }
 
+// verif_mapid(m): the identity of map m (two map values are the same map iff their ids are equal).
+func verif_mapid[K comparable, V any](m map[K]V) uintptr { return reflect.ValueOf(m).Pointer() }
+
 // verif_sameelems(a, b): a and b have the same length and the same elements in
 // the same order.
 func verif_sameelems[T any](a, b []T) bool {
